@@ -50,3 +50,8 @@ claim("C05", "DESIGN.md 5 C05",
       "All sequences of SetExtension/DelExtension calls up to depth 3 (quick) / 4 (thorough) over a 62-operation alphabet (7 ids x 8 value lengths incl. the illegal ones, 6 Del ids) from 7 starting states (fresh, three preset profiles, three headers decoded from wire). After every step an ordered-map reference model (stepped by the calls that returned nil) is compared with GetExtensionIDs/GetExtension, a failed call must leave the header unchanged, Marshal must not panic and may fail only for an odd-sized legacy value, and every accepted value must come back unchanged after Marshal/Unmarshal.",
       "Ids and lengths outside the alphabets and sequences longer than the depth are outside the bound.",
       "bounded exhaustive enumeration of operation sequences against a reference model (explicit choice-tree DFS on the real code, history replay on fresh instances)")
+
+claim("C02", "DESIGN.md 5 C02",
+      "Exhaustive enumeration of hostile inputs: every first byte x every total length up to what it claims + 6; X=1 images with every body string up to 4 (quick) / 5 (thorough) bytes over a 13-symbol alphabet x profile x length-field lies x P bit x 9 tails x CSRC count (29 M images quick); every truncation and single-byte mutation of the C01 reduced space images (34 M); each decoded by Header.Unmarshal and Packet.Unmarshal and checked for no panic, header length inside the input, lengths adding up, payload and every extension value being sub-slices of the input by ADDRESS in increasing order. Reuse: all ordered pairs of a ~200-input corpus (one per outcome class) and all triples over its first 40/90, decoded into one receiver and compared (return values, all RFC fields, re-marshalled bytes) with a fresh receiver.",
+      "Result of a reused receiver excludes state after a failed decode, nil-vs-empty, capacities and a stale ExtensionProfile while X is clear (DESIGN.md 5.0).",
+      "bounded exhaustive enumeration of inputs and decode histories with a fresh-twin differential oracle (explicit choice-tree DFS on the real code)")
